@@ -104,7 +104,7 @@ def _crash_site(tool, text, args, timeout, fname, variant):
         txt = out.decode('latin1')
         if 'received signal' not in txt:
             return 'unknown'
-        frames = re.findall(r'^#\d+\s+(?:0x[0-9a-f]+ in )?([A-Za-z_][\w:~]*) \(.*?\) at (/repo/[^\s:]+):\d+', txt, re.M)
+        frames = re.findall(r'^#\d+\s+(?:0x[0-9a-f]+ in )?([A-Za-z_][\w:~]*) \(.*?\) at (' + re.escape(common.REPO) + r'/[^\s:]+):\d+', txt, re.M)
         if not frames:
             return 'unknown'
         names = [f for f, _ in frames]
